@@ -5,13 +5,16 @@ From Coq Require Import Extraction ExtrOcamlBasic ExtrOcamlString ZArith List St
 From V Require Import Model.Timestamp.
 
 (* k: 0 = format_datetime, 1 = parse_into_datetime (+ the text it is written as), 2 = clean + encoder *)
-Definition c15_case (k : nat) (nm : naive_mode) (ym : year_mode) (p : precision) (c : pconstraint)
+Definition c15_case (k : nat) (nm : naive_mode) (ym : year_mode) (p : precision) (c : pconstraint) (lose : bool)
                     (src : option (precision * pconstraint)) (v : tsinput) : string :=
   let v' := match src with Some (sp, sc) => reparse nm sp sc v | None => v end in
+  (* lose: the value lost its precision attributes (copy / pickle) between cleaning and writing *)
+  let p' := if lose then PAny else p in
+  let c' := if lose then CExact else c in
   match k with
-  | O => match v' with InDatetime l o => show_text (format_dt ym p c l o) | _ => "BADCASE"%string end
+  | O => match v' with InDatetime l o => show_text (format_dt ym p' c' l o) | _ => "BADCASE"%string end
   | S O => show_parsed nm ym p c v'
-  | _ => show_text (write nm ym p c v')
+  | _ => show_text (write_as nm ym p c p' c' v')
   end.
 
 Extraction "c15model.ml" c15_case dt.
